@@ -8,6 +8,7 @@ from collections import Counter
 
 from . import sym
 from .sym import show, const_value
+from .corpus import int_min as int_min_, int_max as int_max_
 
 ORD = ('Lt', 'Eq', 'Gt', 'Un')
 OPSET = {'Lt': {'Lt'}, 'Le': {'Lt', 'Eq'}, 'Gt': {'Gt'}, 'Ge': {'Gt', 'Eq'}, 'Eq': {'Eq'}, 'Ne': {'Lt', 'Gt', 'Un'}}
@@ -417,6 +418,14 @@ def measure_kind(ex, x, F):
     return None
 
 
+def int_widening(t):
+    """(operand, source type) if t is an integer cast that preserves every value of the source type"""
+    if t[0] == 'cast' and t[1] == 'IntToInt' and len(t) > 4 and t[4] and sym.is_int(t[4]) and sym.is_int(t[2]):
+        if int_min_(t[2]) <= int_min_(t[4]) and int_max_(t[4]) <= int_max_(t[2]):
+            return t[3], t[4]
+    return None
+
+
 def norm_check(ex, cond, val, F):
     """normalise one (condition, edge taken on the accepting path) to a check record"""
     t = truth(val)
@@ -438,6 +447,14 @@ def norm_check(ex, cond, val, F):
         break
     if c[0] == 'bin' and c[1] in OPSET:
         a, b = c[2], c[3]
+        # `(x as W) op (k as W)` for a value-preserving integer widening T -> W orders exactly like `x op k`
+        wa, wb = int_widening(a), int_widening(b)
+        if wa and wb and wa[1] == wb[1]:
+            a, b = wa[0], wb[0]
+        elif wa and b[0] == 'const' and b[2] is not None and sym.is_int(b[1]) and int_min_(wa[1]) <= const_value(b) <= int_max_(wa[1]):
+            a, b = wa[0], sym.mk_const(wa[1], const_value(b))
+        elif wb and a[0] == 'const' and a[2] is not None and sym.is_int(a[1]) and int_min_(wb[1]) <= const_value(a) <= int_max_(wb[1]):
+            a, b = sym.mk_const(wb[1], const_value(a)), wb[0]
         ma, mb = measure_kind(ex, a, F), measure_kind(ex, b, F)
         for (m_, side, other) in ((ma, 'a', b), (mb, 'b', a)):
             if isinstance(m_, tuple) and m_[0] == 'charcount_capped':
@@ -490,6 +507,20 @@ def norm_check(ex, cond, val, F):
     return {'kind': 'unknown', 'term': c}
 
 
+def fold_trivial_call(ex, t):
+    """`f()` for a local function whose body is `return <constant>` is that constant"""
+    if t[0] == 'call' and not t[2]:
+        c = ex.callees.get(t[1])
+        if c is not None and c.lid is not None:
+            try:
+                outs = ex.paths(c.lid)
+            except Exception:
+                return t
+            if len(outs) == 1 and outs[0].kind == 'return' and not outs[0].conds and outs[0].ret and outs[0].ret[0] == 'const' and outs[0].ret[2] is not None:
+                return outs[0].ret
+    return t
+
+
 def bound_matches(ex, chk, v, d):
     """R-BOUND: the bound a check compares against denotes what the user wrote. True/False/None"""
     b = chk['bound']
@@ -498,7 +529,9 @@ def bound_matches(ex, chk, v, d):
         if b[0] == 'call' and not b[2]:
             c = ex.callees.get(b[1])
             return c is not None and c.path == v['text'].replace('()', '')
-        return False
+        if not (b[0] == 'const' and b[2] is not None and v.get('value') is not None):
+            return False
+        # the call was evaluated at compile time (a bound bound to a `const` first): fall through to the value comparison
     want = v.get('value')
     if want is None:
         return None
@@ -598,6 +631,15 @@ def check_validator_chain(rep, g, oks, errs, F):
                 bm = bound_matches(ex, chk, v, d)
                 rep.ob('R-BOUND', bm, g, f'{what}: bound `{v["text"]}` denotes {v.get("value", v["text"])!r}',
                        {'extracted_bound': show(chk['bound']), 'written': v['text'], 'denotes': repr(v.get('value'))})
+                if 'site_value' in v and rep.prop == 'C01':
+                    # the name is also defined one scope further in / out with another value: the bound the user declared
+                    # is what the expression denotes where it is written
+                    sv = dict(v, value=v['site_value'])
+                    rep.ob('R-SCOPE', bound_matches(ex, chk, sv, d), g,
+                           f'{what}: bound `{v["text"]}` denotes {v["site_value"]!r} at the place of the declaration',
+                           {'extracted_bound': show(chk['bound']), 'written': v['text'], 'at_declaration_site': repr(v['site_value'])},
+                           site='expressions of the attribute are resolved inside the hidden module, not where they are written '
+                                '(items local to an enclosing function body are invisible; `super::` starts one level deeper)')
         elif k == 'not_empty':
             if chk['kind'] == 'is_empty':
                 good = chk['truth'] is False
@@ -1563,6 +1605,77 @@ def check_ctor_sites(rep, F, gens, methods=None, only=None):
     return counts
 
 
+# names the generated module may bring into the scope in which the user's expressions (bounds, closures,
+# defaults, function paths) are spliced; anything else defined or imported there shadows the user's own item
+# of that name, because items and explicit imports of a module win over its `use super::*`
+HYGIENE_IMPORTS = {
+    'Display': 'pre-existing `use ::core::fmt::Display` of string/any parse errors; a trait name, reachable only through a user item literally called Display inside a spliced expression',
+}
+
+
+def has_user_tokens(F, fn):
+    """does the body of this generated function contain tokens the user wrote (spliced expressions)?"""
+    def walk(x, top):
+        if isinstance(x, dict):
+            if x.get('usp'):
+                return True
+            for k, v in x.items():
+                if k in ('sp', 'fsp') and isinstance(v, str) and not v.startswith('!'):
+                    return True
+                if k == 'span' and not top and isinstance(v, str) and not v.startswith('!') and x.get('kind') == 'closure':
+                    return True
+                if isinstance(v, (dict, list)) and walk(v, False):
+                    return True
+        elif isinstance(x, list):
+            return any(walk(v, False) for v in x)
+        return False
+    if walk(fn, True):
+        return True
+    # closures written inside it (their bodies are separate functions)
+    return any(c['kind'] == 'Closure' and c['path'].startswith(fn['path'] + '::') and not c['span'].startswith('!') for c in F.fns.values())
+
+
+def check_hygiene(rep, g):
+    """R-HYGIENE: the generated module defines and imports no name a spliced user expression could mean"""
+    F = g.F
+    allowed = {g.name, g.name + 'Error', g.name + 'ParseError'}
+    n = 0
+    for it in F.items:
+        if it['scope'] == 'fn':
+            # an item local to a generated function body shadows the same name in whatever is spliced into that body
+            if it['module'] == g.modpath and it['span'].startswith('!'):
+                nm = it['name']
+                owner = [fn for fn in g.fns if fn['path'] == it['owner']]
+                if owner and not any(has_user_tokens(F, fn) for fn in owner):
+                    continue   # nothing of the user's is spliced into that body
+                rep.ob('R-HYGIENE', nm.startswith('__') or nm == '_', g, f'item `{nm}` ({it["kind"]}) local to generated `{it["owner"]}` is `__`-prefixed; '
+                       'any other name would capture the same name in an expression spliced into that body', {'item': nm, 'kind': it['kind']})
+            continue
+        if it['module'] != g.modpath:
+            continue
+        n += 1
+        nm = it['name']
+        ok = nm in allowed or nm.startswith('__') or nm == '_'
+        rep.ob('R-HYGIENE', ok, g, f'item `{nm}` ({it["kind"]}) defined in the generated module is the type, one of its error types, or `__`-prefixed; '
+               'any other name would capture the same name in bounds, closures and defaults spliced next to it', {'item': nm, 'kind': it['kind']})
+    rep.ob('R-HYGIENE', n >= 1, g, 'the items of the generated module were found', {})
+    for u in F.uses:
+        if u['module'] != g.modpath:
+            continue
+        if u['ukind'] == 'Glob':
+            tg = [t['path'] for t in u['targets']]
+            par = ''   # `super` of the generated module: the nearest enclosing module (a function body is not one)
+            for m in F.mods:
+                if m['path'] and g.modpath.startswith(m['path'] + '::') and len(m['path']) > len(par) and m['path'] != g.modpath:
+                    par = m['path']
+            rep.ob('R-HYGIENE', tg == [par] or (not u['targets']), g, 'the only glob import of the generated module is `use super::*`', {'targets': tg})
+            continue
+        for t in u['targets']:
+            nm = u.get('name') or t['path'].split('::')[-1]
+            ok = nm in HYGIENE_IMPORTS or nm.startswith('__') or nm == '_'
+            rep.ob('R-HYGIENE', ok, g, f'explicit import `{t["path"]}` in the generated module is in the frozen table; any other would shadow the user\'s item of that name', {'import': t['path']})
+
+
 def check_no_bypass(rep, g):
     """R-MUT / R-IMPLSET / R-VIS / new_unchecked discipline for one declaration"""
     d = g.d
@@ -1570,10 +1683,16 @@ def check_no_bypass(rep, g):
     # --- field & module visibility
     fld = g.adt['variants'][0]['fields']
     rep.ob('R-VIS', len(fld) == 1 and fld[0]['vis'] == 'in:' + g.modpath, g, 'the single field is private to the generated module', {'vis': [f['vis'] for f in fld]})
-    parent = '::'.join(g.modpath.split('::')[:-1])
+    # the declaring module: the nearest enclosing *module* (a declaration may sit in a function body, which is not one)
+    parent = ''
+    for m in F.mods:
+        if m['path'] and g.modpath.startswith(m['path'] + '::') and len(m['path']) > len(parent) and m['path'] != g.modpath:
+            parent = m['path']
     want_mod_vis = 'crate' if not parent else 'in:' + parent
     rep.ob('R-VIS', g.mod['vis'] == want_mod_vis, g, 'the generated module is private to the declaring module', {'vis': g.mod['vis']})
-    exp = {'pub': 'pub', '': want_mod_vis, 'pub(crate)': 'crate', 'pub(self)': want_mod_vis}.get(d['vis'])
+    grand = '::'.join(parent.split('::')[:-1]) if parent else ''
+    exp = {'pub': 'pub', '': want_mod_vis, 'pub(crate)': 'crate', 'pub(self)': want_mod_vis,
+           'pub(super)': ('crate' if not grand else 'in:' + grand)}.get(d['vis'])
     allowed_names = {g.name, g.name + 'Error', g.name + 'ParseError'}
     seen = set()
     for u in F.uses:
@@ -1733,7 +1852,10 @@ def stated_relation(text):
 def check_messages(rep, g):
     d = g.d
     ex = g.ex
-    if d['custom'] or not d['validators'] or g.err_adt is None:
+    if d['custom'] or not d['validators']:
+        return
+    rep.ob('R-MSG', g.err_adt is not None, g, 'the error enum of a declaration with built-in validators is found in the generated module', {})
+    if g.err_adt is None:
         return
     ea = g.err_adt
     disp = [i for i in g.impls if i.get('trait', '').endswith('fmt::Display') and g.F.ty(i['self']).get('lid') == ea['lid']]
